@@ -43,12 +43,14 @@ CHECKS["C02"] = dict(
 CHECKS["C03"] = dict(
     explanation="bounded symbolic execution; reply accounting on the real MemWaiter protocols' result callbacks",
     assumptions=[],
-    harnesses=[dict(pkg="server", name="C03_step", bound=_STEP_BOUND, flags=["-witness", "500"], reach=["end", "queued", "waiter-ended", "expired"])],
+    harnesses=[dict(pkg="server", name="C03_step", bound=_STEP_BOUND, flags=["-witness", "500"], reach=["end", "queued", "waiter-ended", "expired"]),
+               dict(pkg="server", name="C03_relock", bound="hold by connection A (symbolic Count/Rcount), re-entrant re-lock / update / no-op update of the same LockId by connection B (symbolic Rcount), then 12 s through the real sweeps", flags=["-witness", "5"], reach=["end", "terms-replaced"])],
 )
 CHECKS["C04"] = dict(
     explanation="bounded symbolic execution; quiescence and service-order oracle",
     assumptions=[],
-    harnesses=[dict(pkg="server", name="C04_step", bound=_STEP_BOUND, flags=["-witness", "500"], reach=["end", "woken", "head-blocked", "bypass-considered"])],
+    harnesses=[dict(pkg="server", name="C04_step", bound=_STEP_BOUND, flags=["-witness", "500"], reach=["end", "woken", "head-blocked", "bypass-considered"]),
+               dict(pkg="server", name="C04_bigqueue", bound="exclusive holder + N in {3,140,150,260} queued requests of one priority (crosses the inline->ring migration at 144) + optionally one request of another priority (switch to the priority ring); holds released one by one", flags=["-witness", "1"], reach=["end"])],
 )
 CHECKS["C17"] = dict(
     explanation="bounded symbolic execution; census of holders/waiters/keys against STATE counters and reply counts",
@@ -63,6 +65,9 @@ CHECKS["C13"] = dict(
         dict(pkg="server", name="C13_frame", bound="value frames of 0..8 bytes, arbitrary content", flags=["-witness", "10"], reach=["end"]),
         dict(pkg="server", name="C13_lockdata", bound="key value = none or any stored frame of 2..4 bytes; operation frame of 2..6 bytes with each of the 8 non-POP operation types or an arbitrary type byte; carried on LOCK or on UNLOCK of the holder", flags=["-witness", "2000"], reach=["end", "first-frame-done"], allow=["unsupported"]),
         dict(pkg="server", name="C13_lockdata_pop", bound="as C13_lockdata with the POP operation", flags=["-witness", "200"], reach=["end", "first-frame-done"], allow=["unsupported"]),
+        dict(pkg="protocol", name="C13_textchunks", bound="text request of 1..2 arguments of 0..3 symbolic bytes in every 3-read chunking (TextParser.ParseRequest as TextServerProtocol.Process drives it)", flags=["-witness", "200"], reach=["end"]),
+        dict(pkg="protocol", name="C13_textbytes", bound="arbitrary byte streams of 1..7 bytes (malformed input) in every 3-read chunking", flags=["-witness", "2000"], reach=["end"]),
+        dict(pkg="protocol", name="C13_textbytes9", bound="as C13_textbytes with 1..9 bytes", flags=["-witness", "20000"], reach=["end"], thorough_only=True),
         dict(pkg="server", name="C13_lockdata8", bound="as C13_lockdata with frames of 2..8 bytes", flags=["-witness", "20000"], reach=["end"], allow=["unsupported"], thorough_only=True),
     ],
 )
@@ -72,7 +77,7 @@ CHECKS["C10"] = dict(
     assumptions=[],
     harnesses=[
         dict(pkg="server", name="C10_refuse", bound="state with <=2 holders and <=1 queued request built as leader, then role in {init, follower, sync, config, vote}; one LOCK/UNLOCK with symbolic terms (core profile) without the from-aof flag", flags=["-witness", "50"], reach=["end"]),
-        dict(pkg="server", name="C10_defer", bound="one replicated hold (E=3 s) on a follower, clock advanced 10 / 200 / 303 s through the real sweeps", flags=["-witness", "1"], reach=["end", "kept"]),
+        dict(pkg="server", name="C10_defer", bound="one replicated hold (E=3 s) on a node in each non-leader state {init, follower, sync, config, vote}, clock advanced 10 / 200 / 303 s through the real sweeps", flags=["-witness", "1"], reach=["end", "kept"]),
         dict(pkg="server", name="C10_apply", bound="1..3 from-aof LOCKs (symbolic Count/Rcount/minute/unlimited flags) and an optional from-aof UNLOCK applied on a leader and on a follower", flags=["-witness", "2"], reach=["end"]),
     ],
 )
@@ -83,6 +88,7 @@ CHECKS["C05"] = dict(
     harnesses=[
         dict(pkg="server", name="C05_deadline", bound="every 16-bit T, seconds and minute flag (symbolic); T = 0 immediate TIMEOUT", flags=["-witness", "1"], reach=["end", "zero"]),
         dict(pkg="server", name="C05_sim", bound="T in 1..12 s (crosses the 8 re-checks that move an entry to the long-wait table), a second waiter with T2 in 1..3, ticks 1..T+3; variants: undisturbed / holder unlocks at any tick before the deadline / holder unlocks after the timeout", flags=["-witness", "20"], reach=["end", "granted-before-timeout", "not-granted-after-timeout"]),
+        dict(pkg="server", name="C05_long", bound="three successive waits of T=100 s that reach the long-wait table (~44 s); the first two cancelled at a forked tick after migrating, bucket queues recycled; tick by tick through the real sweeps (~300 ticks)", flags=["-witness", "1"], reach=["end"]),
     ],
 )
 CHECKS["C06"] = dict(
@@ -92,6 +98,7 @@ CHECKS["C06"] = dict(
         dict(pkg="server", name="C06_deadline", bound="every 16-bit E != 0, seconds / minute / unlimited flags (symbolic)", flags=["-witness", "1"], reach=["end", "unlimited"]),
         dict(pkg="server", name="C06_sim", bound="E in 1..12 s, ticks 1..E+15; variants: undisturbed / re-entrant re-lock at any tick before the deadline restarts the period / unlimited flag; a queued request must be served at the expiry tick", flags=["-witness", "10"], reach=["end", "relocked"]),
         dict(pkg="server", name="C06_update", bound="every E1, E2 != 0 with seconds/minute flags, update issued 0 or 1 s after the grant: deadline restarted from now or ignored, ignored only within one unit", flags=["-witness", "1", "-timeout", "5000"], reach=["end", "restarted", "ignored"]),
+        dict(pkg="server", name="C06_long", bound="hold placed in the long-expiry table at once (zero-aof-time flag, E in 6..8), updated at tick 1..3 to E2 in {20, 30, 4}; 45 ticks", flags=["-witness", "3"], reach=["end", "updated"]),
     ],
 )
 
@@ -110,6 +117,7 @@ CHECKS["C07"] = dict(
     harnesses=[
         dict(pkg="server", name="C07_restart", bound="one key, one hold: every 16-bit E != 0, seconds/minute/unlimited, aof timing default / persist-immediately / never, symbolic Count and Rcount, depth 1..2, age 0..2 s before the stop, outage 0/1/2/61/4000 s", flags=["-witness", "20", "-timeout", "3000"],
              reach=["end", "restored", "not-restored", "not-persisted"]),
+        dict(pkg="server", name="C07_history", bound="every prefix (1..6 operations) of lock / re-lock / lock other key or re-lock / unlock one level / unlock one level or all / unlock all on persisted re-entrant holds, then restart", flags=["-witness", "1"], reach=["end"]),
     ],
 )
 
@@ -148,6 +156,8 @@ CHECKS["C12"] = dict(
         dict(pkg="server", name="C12_single", bound="two candidacies with different symbolic numbers, every sequence of 5 deliveries from {proposal 1, commit 1, proposal 2, commit 2}, from any initial accepted/committed numbers", flags=["-witness", "500", "-timeout", "5000"], reach=["end", "one-commit"]),
         dict(pkg="server", name="C12_restart", bound="candidacy 1 proposal+commit accepted, restart from saved metadata, candidacy 2 proposal+commit", flags=["-witness", "1"], reach=[]),
         dict(pkg="server", name="C12_compare", bound="all pairs of 16-byte log positions", flags=["-witness", "1", "-timeout", "5000"], reach=["end"]),
+        dict(pkg="server", name="C12_remote", bound="as C12_acceptor through the remote handlers commandHandleProposalCommand / commandHandleCommitCommand (protobuf through the executor's Marshal/Unmarshal stub, real protobuf natively)", flags=["-witness", "5", "-timeout", "5000"], reach=["end", "proposal-accepted", "commit-accepted"]),
+        dict(pkg="server", name="C12_remote_single", bound="as C12_single through the remote handlers, every sequence of 4 deliveries", flags=["-witness", "200", "-timeout", "5000"], reach=["end"]),
     ],
 )
 
@@ -157,6 +167,7 @@ CHECKS["C18"] = dict(
     harnesses=[
         dict(pkg="server", name="C18_wills", bound="0..3 registered wills, each a LOCK of one shared exclusive key (so order is observable) or an UNLOCK of the connection's hold; one hold and one queued request left behind; Close twice; clock advanced past the queued request's timeout", flags=["-witness", "1"], reach=["end", "closed"]),
         dict(pkg="server", name="C18_route", bound="a closed client's proxy with a symbolic 16-byte client id, two connected clients with symbolic client ids", flags=["-witness", "1"], reach=["end", "dropped", "rerouted"]),
+        dict(pkg="server", name="C18_reconnect", bound="client announces its id (INIT) and leaves a queued request; reconnect under the same id before or after the old connection closes; the later grant must reach the reconnected connection", flags=["-witness", "1"], reach=["end"]),
     ],
 )
 
